@@ -289,6 +289,21 @@ impl Engine for VmEngine {
             // `return` of a literal whose last encoded byte equals the Return opcode (0x16), with
             // cards behind it that must not run
             run("setglobal($67,call($70,[int(#1)])),setglobal($68,call($71,[]))", ",fn($70,[$78],[iftrue(readvar($78),return(int(#1585267068834414634))),setglobal($73,int(#99)),return(int(#0))]),fn($71,[],[return(int(#1585267068834414592)),setglobal($74,int(#98))])"),
+            // the usual "no limit" budget u64::MAX against a small one: same outcome for a program that
+            // completes under both
+            vec![
+                "vm new".to_string(),
+                "vm budcheck mod([],[fn($6d61696e,[],[setvar($63,int(#0)),while(less(readvar($63),int(#25)),composite($5f,[setvar($63,add(readvar($63),int(#1)))])),setglobal($67,readvar($63))])],[]) budget=10000 budget2=18446744073709551615".to_string(),
+                "vm budcheck mod([],[fn($6d61696e,[],[setglobal($67,int(#1))])],[]) budget=18446744073709551614 budget2=9223372036854775808".to_string(),
+            ],
+            // a two-parameter host function called through a function value with ONE argument on an
+            // otherwise empty stack (no arity check on this path): peek_last(1) with exactly one value;
+            // the same boundary for SetProperty / AppendTable / NthRow with one operand missing
+            run("setglobal($67,dyncall([int(#1)],nativefn($73756d32)))", ""),
+            run("dyncall([str($61)],nativefn($73756d32))", ""),
+            run("append(comment($78),table)", ""),
+            run("setprop(comment($78),table,int(#1))", ""),
+            run("setglobal($67,get(comment($78),int(#0)))", ""),
             // a card without a value in a value slot pops the EMPTY stack (nil); the run ends with a
             // SetProperty, whose pop_n leaves its operands behind in the slots above the top: the
             // second run on the uncleared machine must still read nil
@@ -444,8 +459,8 @@ impl Engine for VmEngine {
                         Ok(prog) => {
                             let mut outs = vec![];
                             for key in ["budget", "budget2"] {
-                                let mut v = new_vm(cfg.0, cfg.1, cfg.2);
-                                v.max_instr = kv(&a, key, 1000) as u64;
+                                // (through the builder method, as a host sets a budget)
+                                let mut v = new_vm(cfg.0, cfg.1, cfg.2).with_max_iter(kv(&a, key, 1000) as u64);
                                 let r = v.run(&prog);
                                 outs.push(show_outcome(&v, &prog, &r));
                             }
